@@ -61,6 +61,17 @@ fn encode(p: &NtpPacket<'_>, cap: usize) -> std::io::Result<Vec<u8>> {
 
 pub fn run(c: &mut Case) {
     let world = World::new(&mut c.rng);
+    if c.idx < 3 {
+        // fixed minimal witnesses for section 6 of the design: an NTPv5 request with a draft-id field and a
+        // reference-id request field whose payload is 2, 3 and 5 bytes long (any seed, idx 0..2)
+        let mut b = vec![0u8; 48];
+        b[0] = (5 << 3) | 3;
+        b.extend(crate::common::refntp::encode_field(crate::common::refntp::EF_V5_DRAFT_ID, world.draft.as_bytes(), true, None));
+        let n = [2usize, 3, 5][c.idx as usize];
+        b.extend(crate::common::refntp::encode_field(crate::common::refntp::EF_V5_REFID_REQ, &vec![0u8; n], true, None));
+        check_roundtrip(c, &b, &[4, 6], true);
+        return;
+    }
     let class = c.idx % 10;
     let (b, kinds, pristine): (Vec<u8>, Vec<u8>, bool) = match class {
         0 => {
